@@ -337,6 +337,9 @@ func searchMain(a map[string]string) {
 		runSpec("corpus", s)
 	}
 	// deterministic small-scope families first, random programs afterwards (hardening class 8)
+	arityFamily(hx.ArgInt(a, "arity", 1) > 1, hx.SeedFromEnv(), func(ctx string, s spec) {
+		runSpec("arity-"+ctx, s)
+	})
 	// the two hard limits, tested directly
 	for _, cfg := range []int{32, 1 | 2 | 8 | 32, 63} {
 		for _, k := range []int{1024, 1025} {
